@@ -9,9 +9,14 @@ NOTE = ("Sequential single-call reasoning (no interference from other goroutines
         "parameter bag, Set) are listed per run under coverage.trusted_base; govc and the solvers are trusted.")
 claimed = {
  'C01': ("Sequential core of outbound delivery: sendPacket appends exactly one packet at the tail after packetCreate and flushes; flush hands the whole buffer over exactly once iff not closed, writable and non-empty (the batch is the AllAndClear copy, in order), Slice.Push/AllAndClear are proved against the sequence view for all lengths. Interleavings, the codec and liveness are not decided.", "5 (C01)"),
+ 'C02': ("Sequential core of inbound delivery: polling.OnData hands each decoded packet to OnPacket once, in order, and stops at the first close packet (loop invariant over the decoded slice); onDataRequest hands exactly one buffer to OnData, a BytesBuffer iff the request is binary; socket.onPacket emits one 'data' and one 'message' per MESSAGE packet in state open and none otherwise. The payload decoder is a dependency (assumed), JSONP un-escaping and the WebSocket/WebTransport reader goroutines are not decided.", "5 (C02)"),
  'C03': ("Per-call lifecycle clauses: OnClose emits exactly one close with the reason after setting the state to closed and before nothing else, and is silent when already closed; onPacket/sendPacket/flush are silent in the closed states; Close acts only in state open; forced-close callback reason; MakeSocket starts in opening. Races between close causes are not decided.", "5 (C03)"),
+ 'C04': ("Per-call registry clauses: a successful Handshake stores the new session under its id, adds exactly one to the count and registers exactly one close listener on that session; the listener deletes exactly that id and subtracts one (64-bit wrap-around proved); rejected handshakes touch neither; unknown sid is answered UNKNOWN_SID; GenerateId appends the old sequence number big-endian and increments it once. types.Map is a trusted model; quiescence under interleavings is not decided.", "5 (C04)"),
  'C05': ("The documented error table (init obligations), ComputePath for every attach-option combination, and Verify proved equal to the precedence table for every combination of query, headers, registry and hook outcome.", "5 (C05)"),
+ 'C06': ("Handshake success path: exactly one NewSocket with protocol 4 iff EIO==4 (3 only when allowed), stored before the close hook is registered, exactly one 'connection' event and no 'connection_error'. The open packet contents (onOpen) are not yet under contract.", "5 (C06)"),
  'C07': ("Heartbeat decision logic: timeout duration per revision, v3 ping -> refresh+pong+heartbeat, v4 pong -> clear deadline then re-arm interval, wrong direction -> exactly one transport error and nothing else; timers cleared on close. The timer API itself is trusted (C19 not applicable), so deadlines are proved relative to a correct timer.", "5 (C07)"),
+ 'C10': ("The limit reaches every inbound path: WebTransport advanceFrame enforces readLimit for every frame header (bit-vector proof) and the limit is installed before the first read; the WebSocket upgrade installs SetReadLimit(maxHttpBufferSize) before onWebSocket; polling onDataRequest answers 413 for a declared length above the limit, bounds bodies of undeclared length with MaxBytesReader and hands OnData nothing larger; Handshake copies the limit to the transport. gorilla's enforcement and net/http's body accounting are trusted.", "5 (C10)"),
+ 'C11': ("Polling discipline per call: overlapping poll/data requests are answered 400 with one write and a transport error, leaving the pending request in place; every return path of onDataRequest has written exactly one response and 'ok' only after OnData returned; HttpContext.Write never writes twice. Overlap between handler goroutines (check-then-act on p.req) is not decided.", "5 (C11)"),
  'C12': ("Close decision table (discard / not open / buffered -> wait for drain / empty -> close now), closeTransport order (discard before close) and the forced-close reason of its callback.", "5 (C12)"),
  'C13': ("Every write path of the framing layer that is in the subset (WriteMessage fast and writer path, NextWriter, Write, Close, flushFrame, beginMessage, NewConn) against 'one message = one frame': counted stream writes, buffer content invariants with unbounded quantifiers. The two places where the real code splits a message are recorded known findings with their input classes.", "5 (C13), Appendix E.1"),
  'C14': ("Encoder (flushFrame, Conn.write) and decoder (advanceFrame, read, setReadRemaining) are proved equal to the Engine.IO WebTransport frame format for every kind and every 64-bit length (bit-vector proof, no bound).", "2.3, 5 (C14), Appendix C"),
